@@ -131,6 +131,15 @@ def checkC13 (steps : List Step) : Option (Nat × String) := Id.run do
             return some (idx, s!"band_choose_hello_time: Ni={pre.ni} now={s.clock} scheduled {post.helloTs}, load formula allows no sooner than {s.clock + loadInterval pre.ni}")
         | _, _ => pure ()
       | none => pure ()
+    | ["tick", _, e, _, _] =>
+      match parseDec e with
+      | some E =>
+        match s.band.lookup E, s'.band.lookup E with
+        | some pre, some post =>
+          if !holdsC13Tick pre post s.clock then
+            return some (idx, s!"automata_tick ended a block at {s.clock} ms: r={pre.r} begun={pre.begun} Ni {pre.ni} -> {post.ni}, next Hello at {post.helloTs}, load formula allows no sooner than {s.clock + loadInterval post.ni}")
+        | _, _ => pure ()
+      | none => pure ()
     | _ => pure ()
     s := s'
     idx := idx + 1
